@@ -568,3 +568,15 @@ T('C14', 'twin-stream-inlined', PGP, TRUST + "\n        def pktgrouper():", "   
   more=[(PGP, "itertools.groupby(getpkt, key=pktgrouper())", "itertools.groupby(filter(lambda p: p.header.tag != PacketTag.Trust, iter(functools.partial(_getpkt, data), None)), key=pktgrouper())")])
 T('C14', 'twin-copy-binary-or', PGP, "        for uid in self._uids:\n            key |= copy.copy(uid)\n", "        for uid in self._uids:\n            key = key | copy.copy(uid)\n")
 T('C20', 'twin-new-option-bool', PGP, "        sensitive = kwargs.pop('sensitive', False)\n", "        sensitive = bool(kwargs.pop('sensitive', False))\n")
+T('C14', 'twin-grouper-closure', PGP, "        def pktgrouper():\n            class PktGrouper(object):\n                def __init__(self):\n                    self.last = None\n\n                def __call__(self, pkt):\n" + GROUPER + "            return PktGrouper()\n",
+  "        grouplabel = [None]\n\n        def grouper(pkt):\n            if pkt.header.tag != PacketTag.Signature:\n                grouplabel[0] = '{:02X}_{:s}'.format(id(pkt), pkt.__class__.__name__)\n            return grouplabel[0]\n",
+  more=[(PGP, "itertools.groupby(getpkt, key=pktgrouper())", "itertools.groupby(getpkt, key=grouper)")])
+M('C14', 'grouper-closure-every-packet', PGP, "        def pktgrouper():\n            class PktGrouper(object):\n                def __init__(self):\n                    self.last = None\n\n                def __call__(self, pkt):\n" + GROUPER + "            return PktGrouper()\n",
+  "        grouplabel = [None]\n\n        def grouper(pkt):\n            grouplabel[0] = '{:02X}_{:s}'.format(id(pkt), pkt.__class__.__name__)\n            return grouplabel[0]\n", 'C14.3',
+  more=[(PGP, "itertools.groupby(getpkt, key=pktgrouper())", "itertools.groupby(getpkt, key=grouper)")])
+T('C14', 'twin-copy-chained', PGP, "        for uid in self._uids:\n            key |= copy.copy(uid)\n\n        for id, subkey in self._children.items():\n            key |= copy.copy(subkey)\n",
+  "        for part in itertools.chain(self._uids, self._children.values()):\n            key |= copy.copy(part)\n")
+T('C14', 'twin-export-helper-filter', PGP, UIDSIGS, "            for s in self._exportable_only(uid._signatures):\n                _bytes += s.__bytearray__()\n",
+  more=[(PGP, "    def __bytearray__(self):\n        _bytes = bytearray()\n        # us\n", "    @staticmethod\n    def _exportable_only(sigs):\n        return [s for s in sigs if s.exportable]\n\n    def __bytearray__(self):\n        _bytes = bytearray()\n        # us\n")])
+M('C14', 'copy-chained-without-subkeys', PGP, "        for uid in self._uids:\n            key |= copy.copy(uid)\n\n        for id, subkey in self._children.items():\n            key |= copy.copy(subkey)\n",
+  "        for part in itertools.chain(self._uids):\n            key |= copy.copy(part)\n", 'C14.4')
